@@ -28,7 +28,7 @@ func init() {
 		Race:      true,
 		RaceFiles: []string{"serveconn.go"},
 		Shards:    shards(8, 16),
-		Timeout:   timeouts(3*time.Minute, 40*time.Minute),
+		Timeout:   timeouts(12*time.Minute, 90*time.Minute),
 		MinEvals:  100,
 		Required:  []string{"script:1", "script:2", "script:3", "script:4", "script:5", "script:6", "script:7", "script:8", "script:9", "script:10", "script:11", "busy_writer_then_close", "busy_writer_then_drain", "flush_with_64_or_more_outstanding", "late_completions", "flush_replies_checked", "ctx_done_observed", "reused_tag_replies_checked"},
 		Run:       runC07,
